@@ -105,6 +105,19 @@ def run_session(item):
         shutil.rmtree(d, ignore_errors=True)
 
 
+def run_sibling_session(flags):
+    outer = driver.scratch_dir("c18sib-")
+    try:
+        src = "from inline_snapshot import snapshot\n\n\ndef test_a():\n    assert 5 == snapshot(4)\n    assert [1] == snapshot()\n"
+        driver.write_project(outer, {"tests/test_s.py": src, "tests/pyproject.toml": "", "work/keep.txt": ""})
+        r = driver.run_pytest(outer / "tests", [f"--inline-snapshot={','.join(flags)}"] * bool(flags) + ["../tests"], cwd=outer / "work")
+        out = r["stdout"] + r["stderr"]
+        return {"rc": r["rc"], "internal": "INTERNALERROR" in out or "Traceback (most recent call last)" in out, "fixed": "snapshot(5)" in (outer / "tests/test_s.py").read_text(),
+                "tail": out[-1500:], "infra": r.get("infra_error")}
+    finally:
+        shutil.rmtree(outer, ignore_errors=True)
+
+
 def classify_session(src, flags, o):
     if "fix" in flags and "trim" in flags and " in snapshot(" in src:
         return "F-21"
@@ -184,6 +197,14 @@ def run(ctx: Ctx):
         if why:
             ctx.report("C18 oracle: " + why + f" (flags {flags})", {"kind": "session", "source": src, "flags": flags, "output": o["tail"]}, tag=classify_session(src, flags, o))
     ctx.coverage["oracle"]["sessions"] = len(items)
+    # the session is started in a directory that does not contain the test files (cd work && pytest ../tests)
+    for flags in ([], ["fix"], ["create", "fix", "trim", "update"]):
+        o = run_sibling_session(flags)
+        ctx.count(("sibling-session", tuple(flags)), True)
+        if not o.get("infra") and (o["internal"] or o["rc"] not in (0, 1) or ("fix" in flags and not o["fixed"])):
+            ctx.report(f"C18 oracle: session started in a sibling directory of the test files (pytest ../tests, flags {flags}): "
+                       f"{'INTERNALERROR / traceback' if o['internal'] else 'exit status %s' % o['rc']}{'' if o['fixed'] or 'fix' not in flags else ', the approved fix was not applied'}",
+                       {"kind": "sibling", "flags": flags, "output": o["tail"]})
     # the edits computed for one file never depend on another file: the same module under several names in one session
     from .. import twins
     NESTED = ("from inline_snapshot import snapshot\n\n\ndef test_n1():\n    assert [0, 7] == snapshot([snapshot(), 0])\n\n\n"
@@ -196,6 +217,10 @@ def replay(ctx: Ctx, data):
         from .. import twins
         return twins.replay(data["case"])
     c = data["case"]
+    if c.get("kind") == "sibling":
+        o = run_sibling_session(c["flags"])
+        print(o["tail"][-800:])
+        return not (o["internal"] or o["rc"] not in (0, 1) or ("fix" in c["flags"] and not o["fixed"]))
     if c.get("kind") == "session":
         o = run_session((c["source"], c["flags"]))
         print(o["tail"][-1500:])
